@@ -144,7 +144,9 @@ func maintEngine(seed uint64, tier string, args []string) {
 		return
 	}
 	for i := from; i < n+np; i++ {
-		if i >= n {
+		if i >= n+np-4 {
+			runMaintEmptyCase(seed, i-(n+np-4), i) // the last four: a node that finds nobody to ask, closed at once
+		} else if i >= n {
 			runMaintPassCase(seed, i-n, i)
 		} else {
 			runMaintCase(seed, i)
